@@ -209,7 +209,11 @@ def r1(ctx):
                             and U(x.targets[0].slice) == kv and U(x.value).replace(" ", "") in (f"{grp}[{kv}][:]", f"{grp}[{kv}][()]"):
                         got.setdefault(x.targets[0].value.id, set()).add("datasets")
         return any(v == {"attrs", "datasets"} for v in got.values())
-    shared_grp = [k for k, v in env.items() if U(v).replace(" ", "") in ("f['shared_params']", 'f["shared_params"]')]
+    # the open archive, whatever the `with h5py.File(..) as <name>` calls it
+    handles = {it.optional_vars.id for w in walk_own(lf.node) if isinstance(w, ast.With) for it in w.items
+               if isinstance(it.optional_vars, ast.Name) and isinstance(it.context_expr, ast.Call) and U(it.context_expr.func) in ("h5py.File", "File")} or {"f"}
+    shared_grp = [k for k, v in env.items() if isinstance(v, ast.Subscript) and isinstance(v.value, ast.Name) and v.value.id in handles
+                  and isinstance(v.slice, ast.Constant) and v.slice.value == "shared_params"]
     ctx.check("R1", f"{lf.site()}::reads-attrs-and-datasets:shared", bool(shared_grp) and reader_ok(shared_grp[0]),
               "shared parameters: attributes and whole datasets are both read back into one dict",
               "loader does not read back both the attributes and the whole datasets of the shared group")
@@ -465,9 +469,14 @@ def r2(ctx):
     ctx.check("R2", f"{f.site()}::self-then-other", v in ("self.thetas+other.thetas", "[*self.thetas,*other.thetas]", "list(self.thetas)+list(other.thetas)"),
               "combined list is self's samples followed by other's", f"combined list is `{v}`: chain-major order needs self.thetas + other.thetas")
     env = single_defs(f.node)
-    nt = [n for n in walk_own(f.node) if isinstance(n, ast.Assign) and isinstance(n.targets[0], ast.Name) and n.targets[0].id == "n_thetas"]
+    # the declared size by role: the size argument of the construction of the holder whose .thetas is stored
     N = Norm(strict=False)
-    size_ok = bool(nt) and N.key(nt[0].value) == N.key(parse_expr("self.n_thetas + other.n_thetas"))
+    holder_name = U(st[0].targets[0].value)
+    ctor = env.get(holder_name)
+    size_e = None
+    if isinstance(ctor, ast.Call) and (ctor.args or kwargs(ctor).get("n_thetas") is not None):
+        size_e = inline(kwargs(ctor).get("n_thetas", ctor.args[0] if ctor.args else None), env)
+    size_ok = size_e is not None and N.key(size_e) == N.key(parse_expr("self.n_thetas + other.n_thetas"))
     ctx.check("R2", f"{f.site()}::size", size_ok, "declared size is the sum of both sizes", "declared size of the combination is not self.n_thetas + other.n_thetas")
     f = ctx.fn("core.ThetaHolder.concat")
     lst = [p for p in f.params if p != "cls"][0]
